@@ -22,6 +22,42 @@ READER_STAGE = dict(cmd="reader", spec="Trace_Reader", histfile=True,
                     thorough=dict(chunks=12, nrec=3, maxlen=3, random=300, types=13))
 
 PROPS = {
+    "C11": dict(
+        level="model_checking",
+        level_text="TLC checks Inv_CrashSafe on the writer specification: for every bounded history, every byte cut of every .shp "
+                   "operation paired with cuts of the .shx operations, the reader model yields an error or a prefix of the shapes "
+                   "written and at least the shapes of the last finalize completed inside the cut; on the real code, the operation "
+                   "logs of real workloads are cut at every byte, the real reader is opened on the rebuilt files (with/without "
+                   "index, sequential and random access) and TLC re-derives the cut files from the logs and validates each outcome",
+        level_note="trusted: TLC, the logging destinations (in-memory; a BufWriter<File> reorders nothing but batches differently: "
+                   "every byte prefix is covered, so every batching is); shp x shx cut pairs are complete for the first workloads only",
+        technique=TECH_TRACE,
+        mc=[dict(module="MC_Writer", quick="MC_Crash.cfg", thorough="MC_Crash_T.cfg", workers=12)],
+        stages=[dict(cmd="crash", spec="Trace_Crash",
+                     quick=dict(chunks=8, workloads=10, fullpairs=0),
+                     thorough=dict(chunks=16, workloads=150, fullpairs=3))],
+        rule="a case = (workload, .shp cut (ops, bytes), .shx cut (ops, bytes), reader route); cuts enumerate every byte of every "
+             "write the real writer issued",
+    ),
+    "C12": dict(
+        level="fault_enumeration",
+        level_text="for every workload, every call index k on each destination (write, seek, flush) fails one-shot, after a partial "
+                   "write, and persistently; each API call's result and whether the fault fired during it are validated by TLC against "
+                   "the fault actions of the writer specification (failing call returns that error; failed finalize retryable: after "
+                   "healing, finalize + drop leave the bytes of the undisturbed run; drop never panics); short writes for every chunk "
+                   "size 1..9 and random schedules; TLC also explores every failing operation of every bounded history on the "
+                   "specification (MC_Faults) with the commit-point invariants",
+        level_note="trusted: TLC, the fault-injecting destinations; a write_shape that failed leaves the writer 'poisoned' and a write "
+                   "on a writer whose finalize failed and was not retried is outside the property (modelled as WriteTorn)",
+        technique="exhaustive fault enumeration on the real writer, each run validated by TLC against the TLA+ writer specification",
+        mc=[dict(module="MC_Faults", quick="MC_Faults.cfg", thorough="MC_Faults_T.cfg", workers=8)],
+        stages=[dict(cmd="faults", spec="Trace_Writer",
+                     quick=dict(chunks=8, types=13, hists=1),
+                     thorough=dict(chunks=16, types=13, hists=6))],
+        rule="a run = (type, history, destination, failing call index k, mode in {one-shot, partial, persistent}) or a short-write "
+             "schedule; k ranges over all calls the undisturbed run issues on that destination plus one",
+        exhaustive=True,
+    ),
     "C13": dict(
         level="fault_enumeration",
         level_text="every truncation length 0..len of the .shp (index intact / absent; sequential and random access) and of the .shx, "
